@@ -21,7 +21,7 @@ SCALAR = [op + s for op in ("add", "sub", "mul", "div") for s in ("_of", "_assig
 RE_POINTS = {
     "default": [1.2, 0.3, -0.7, 2.5, -1.8, 0.6, -0.25],
     "pos": [1.2, 0.3, 2.5, 0.6, 7.0], "unit": [0.3, -0.7, 0.6, -0.25, 0.9], "gt1": [1.2, 2.5, 7.0],
-    "gtm1": [1.2, 0.3, -0.7, 2.5, 0.0], "nonzero": [1.2, -0.7, 2.5, -1.8, 0.3],
+    "gtm1": [1.2, 0.3, -0.7, 2.5, 0.0, 1e-12, -1e-12], "nonzero": [1.2, -0.7, 2.5, -1.8, 0.3],
     "sph": [1.2, -2.0, 0.0, -0.7, 5.0, 1e-20, -1e-20, -50.0],
 }
 DOMAIN = {"recip": "nonzero", "inv": "nonzero", "sqrt": "pos", "cbrt": "nonzero", "ln": "pos", "log2": "pos", "log10": "pos", "log": "pos", "ln_1p": "gtm1",
